@@ -108,7 +108,8 @@ _build_state = {}
 
 TRANSLATOR_OUTPUTS = {"config2coq.py": "ConfigData.v", "cmake2coq.py": "CMinxCMake.v",
                       "literals2coq.py": "SourceLiterals.v", "py2coq.py": "PySource.v",
-                      "grammar2coq.py": "GrammarSource.v", "pywriter2coq.py": "PyWriterSource.v"}
+                      "grammar2coq.py": "GrammarSource.v", "pywriter2coq.py": "PyWriterSource.v",
+                      "pywalk2coq.py": "PyWalkSource.v", "pymain2coq.py": "PyMainSource.v"}
 
 
 def translators():
